@@ -215,9 +215,9 @@ def _field_names():
 
 
 @st.composite
-def _rewrite_ops(draw):
+def _rewrite_ops(draw, counts):
     kinds = ["comment", "empty-row", "trailing", "trim", "marker", "names-case", "blanks", "xcase", "permute"]
-    count = draw(st.sampled_from([0, 1, 1, 2, 2, 3, 3, 4, 5]))
+    count = draw(st.sampled_from(counts))
     ops = []
     for _ in range(count):
         kind = draw(st.sampled_from(kinds))
@@ -230,7 +230,7 @@ def _rewrite_ops(draw):
 
 
 @st.composite
-def valid_cids(draw, format_kinds=gen_fields.FORMATS):
+def valid_cids(draw, mode="defects", format_kinds=gen_fields.FORMATS):
     kind = draw(st.sampled_from(format_kinds))
     textual = kind in ("delimited", "delimited-de", "fixed")
     allowed_text, allowed = draw(st.sampled_from(_ALLOWED)) if textual else (None, None)
@@ -320,7 +320,8 @@ def valid_cids(draw, format_kinds=gen_fields.FORMATS):
     return {
         "kind": kind, "format": fmt["format"], "rows": rows, "kinds": kinds, "bad_examples": bad_examples,
         "expect": {"fields": expect_fields, "checks": expect_checks, "attrs": attrs},
-        "ops": draw(_rewrite_ops()), "salt": draw(st.integers(0, 9973)), "csv": draw(st.booleans()),
+        "ops": draw(_rewrite_ops([1, 1, 2, 2, 3, 3, 4, 5] if mode == "rewrites" else [0, 0, 1, 1, 2, 3, 4])),
+        "salt": draw(st.integers(0, 9973)), "csv": draw(st.booleans()), "mode": mode,
     }
 
 
@@ -856,8 +857,8 @@ def check_case(sub, case):
     ops = case.get("ops") or []
     kinds = case["kinds"]
     counts = dict((k, kinds.count(k)) for k in ROW_KINDS)
-    classes = ["format:" + case["kind"], "fields:%d" % counts["field"], "checks:%d" % counts["check"],
-               "rewrites:%d" % len(ops)] + ["rewrite:" + op["kind"] for op in ops]
+    classes = ["mode:" + case.get("mode", "both"), "format:" + case["kind"], "fields:%d" % counts["field"],
+               "checks:%d" % counts["check"], "rewrites:%d" % len(ops)] + ["rewrite:" + op["kind"] for op in ops]
     for row, kind in zip(base_rows, kinds):
         if kind == "field":
             classes.append("type:" + (row[5] or "Text"))
@@ -899,18 +900,29 @@ def check_case(sub, case):
                          "create_cid_from_string and Cid.read disagree in %s\ntext: %r" % (
                              ", ".join(different), csv_text(base_rows)))
 
-    # (a) rewrites
+    # (a) rewrites: judged in the modes "rewrites" and "both"; in mode "defects" they only decorate the valid CID
+    mode = case.get("mode", "both")
     tagged = _tagged(case)
     valid = tagged
     if ops:
         rewritten = tagged
         for op in ops:
             rewritten = apply_rewrite(rewritten, op)
-        accepted = _judge_rewrite(sub, case, base_rows, base_observation, rewritten, ops, "rows") is not None
-        if accepted and use_csv and not _has_line_break(_plain(rewritten)):
-            _judge_rewrite(sub, case, base_rows, base_observation, rewritten, ops, "csv")
+        if mode == "defects":
+            rewritten_cid, error = load(_plain(rewritten))
+            sub.evaluations += 1
+            accepted = error is None and not differences(base_observation, observe(rewritten_cid))
+        else:
+            accepted = _judge_rewrite(sub, case, base_rows, base_observation, rewritten, ops, "rows") is not None
+            if accepted and use_csv and not _has_line_break(_plain(rewritten)):
+                _judge_rewrite(sub, case, base_rows, base_observation, rewritten, ops, "csv")
         if accepted:
             valid = rewritten
+        else:
+            # reported by the part that judges rewrites; the defects are then applied to the unrewritten CID
+            sub.cls("rewritten-cid-not-accepted")
+    if mode == "rewrites":
+        return
 
     # (b) defects, each alone, at every applicable row
     via_csv = use_csv and bool(case.get("csv"))
@@ -1009,7 +1021,8 @@ def _catalogue_shard(case):
 
 def run(ctx):
     ctx.par(_catalogue_shard, list(seed_cases()))
-    ctx.hyp("generated", valid_cids, check_case, ctx.n(480, 6400))
+    ctx.hyp("rewrites", lambda: valid_cids("rewrites"), check_case, ctx.n(1600, 24000))
+    ctx.hyp("defects", lambda: valid_cids("defects"), check_case, ctx.n(400, 6000))
 
 
 def replay(sub, case):
